@@ -18,6 +18,28 @@ func Replay(sc *Scenario, choices []int) map[string]any {
 // death). It returns false when the execution cannot be judged further.
 func JudgeAlive(run *vr.Run, sc *Scenario, w *World, choices []int) bool {
 	rep := Replay(sc, choices)
+	if sc.Ticks > 0 {
+		// vacuity guard of the keep-alive scenarios: in how many executions the timer fired and the ping reached
+		// the server, and in how many of those it arrived between two requests of the callers
+		for i, f := range w.Srv.Frames {
+			if f.Ctor == 0x7abe77ec {
+				run.Count("executions_with_the_keepalive_ping_on_the_wire", 1)
+				after := false
+				for _, g := range w.Srv.Frames[i+1:] {
+					if g.Ctor == rpcsrv.ReqID {
+						after = true
+					}
+				}
+				if after {
+					run.Count("executions_with_the_keepalive_ping_before_a_request_of_a_caller", 1)
+				}
+				break
+			}
+		}
+	}
+	if len(w.Net.WriteFaulted) > 0 {
+		run.Count("executions_with_a_failed_write", 1)
+	}
 	if w.ConnErr != nil {
 		run.Violation("connect-error|"+vr.MsgClass(w.ConnErr.Error()), sc.Name+": CreateConnection on a stored session failed: "+w.ConnErr.Error(), rep)
 		return false
